@@ -47,7 +47,7 @@ struct Ent {   // one per created object; never re-used within a run
   // client
   bool suspended, failedIO, closedCb; int fd; Socket* far; int64_t backlog; uint64_t accepted; uint64_t readBytes;
   // listener
-  int port; int acceptPolicy;
+  int port; int acceptPolicy; int connectAction;   /* establisher: what its completion callbacks do (0 nothing, 1 write to the new client, 2 suspend it, 3 reconnect from onAbolished) */
 };
 static const int MAXENT = 96;
 struct Pending { int code; int slot; int64_t arg; };
@@ -69,7 +69,7 @@ static Ent* newEnt(int kind, int slot) {
   if (C.nent >= MAXENT) return 0;
   Ent* e = &C.ent[C.nent]; e->kind = kind; e->id = C.nent++; e->slot = slot; e->removed = false; e->alive = true; e->handle = 0;
   new (&e->tcb) TimerCb; new (&e->lcb) ListenerCb; new (&e->ecb) EstabCb; new (&e->ccb) ClientCb; e->tcb.e = e; e->lcb.e = e; e->ecb.e = e; e->ccb.e = e;
-  e->t0lo = e->t0hi = e->interval = 0; e->activations = 0; e->resolved = 0; e->byHost = false; e->createdAt = 0; e->suspended = e->failedIO = e->closedCb = false; e->fd = -1; e->far = 0; e->backlog = 0; e->accepted = 0; e->readBytes = 0; e->port = 0; e->acceptPolicy = 0;
+  e->t0lo = e->t0hi = e->interval = 0; e->activations = 0; e->resolved = 0; e->byHost = false; e->createdAt = 0; e->suspended = e->failedIO = e->closedCb = false; e->fd = -1; e->far = 0; e->backlog = 0; e->accepted = 0; e->readBytes = 0; e->port = 0; e->acceptPolicy = 0; e->connectAction = 0;
   return e;
 }
 static void checkLive(Ent* e, const char* cb) {
@@ -137,6 +137,9 @@ Server::Client::ICallback* ListenerCb::onAccepted(Server::Client& client, uint32
   if (policy == 2) { probe("remove_in_onAccepted_then_keep"); C.srv->remove(client); c->removed = true; runPending(e); return &c->ccb; }
   if (policy == 3) { probe("remove_in_onAccepted_then_null"); C.srv->remove(client); c->removed = true; runPending(e); return 0; }
   C.clientSlot[slot] = c;
+  /* a greeting written, or flow control applied, from inside onAccepted: the client's own poll registration changes before the callback returns */
+  if (policy == 4) { probe("write_in_onAccepted"); execOp(C_WRITE, slot, 1 + e->port * 977 % 1900, e); }
+  if (policy == 5) { probe("suspend_in_onAccepted"); execOp(C_SUSPEND, slot, 0, e); }
   runPending(e);
   return &c->ccb;
 }
@@ -147,6 +150,8 @@ Server::Client::ICallback* EstabCb::onConnected(Server::Client& client) {
   int slot = freeClientSlot(); Ent* c = slot >= 0 ? newEnt(K_CLIENT, slot) : 0;
   if (!c) { runPending(e); return 0; }
   c->handle = &client; c->fd = (int)client.getSocket().getFileDescriptor(); C.clientSlot[slot] = c;
+  if (e->connectAction == 1) { probe("write_in_onConnected"); execOp(C_WRITE, slot, 1 + e->id * 977 % 1900, e); }
+  if (e->connectAction == 2) { probe("suspend_in_onConnected"); execOp(C_SUSPEND, slot, 0, e); }
   runPending(e);
   return &c->ccb;
 }
@@ -155,6 +160,11 @@ void EstabCb::onAbolished() {
   if (e->resolved) fail("C14/establisher_resolved_twice", "establisher #%d got a second completion callback", e->id);
   e->resolved = 2; C.unresolvedEstab--;
   runPending(e);
+  if (e->connectAction == 3 && !e->removed && !C.scriptDone) {   /* the usual reconnect: drop the failed establisher and dial again from inside its onAbolished */
+    int sl = e->slot; int port = e->port; probe("reconnect_in_onAbolished");
+    removeEnt(e);
+    execOp(E_ADDR, sl, port, 0);
+  }
 }
 void ClientCb::onRead() {
   checkLive(e, "onRead");
@@ -223,11 +233,11 @@ static void execOp(int code, int slot, int64_t arg, Ent* self) {
     int64_t lo = Time::ticks(); Server::Timer* t = C.srv->time(e->interval, e->tcb); int64_t hi = Time::ticks(); e->t0lo = lo; e->t0hi = hi; e->handle = t; C.timerSlot[sl] = e;
     for (int i = 0; i < 8; ++i) if (i != sl && C.timerSlot[i] && C.timerSlot[i]->t0lo + C.timerSlot[i]->interval * (C.timerSlot[i]->activations + 1) == lo + e->interval) probe("timer_equal_due"); break; }
   case T_REMOVE: { Ent* e = C.timerSlot[slot % 8]; if (e) { if (e == self) probe("timer_removed_in_own_callback"); else if (self && self->kind == K_TIMER) probe("timer_removed_by_other_timer"); removeEnt(e); } break; }
-  case L_LISTEN: { int sl = slot % 2; if (C.listenerSlot[sl]) break; Ent* e = newEnt(K_LISTENER, sl); if (!e) break; e->port = 5000 + sl; e->acceptPolicy = (int)(arg % 4); if (arg % 7 < 4) e->acceptPolicy = 0;
+  case L_LISTEN: { int sl = slot % 2; if (C.listenerSlot[sl]) break; Ent* e = newEnt(K_LISTENER, sl); if (!e) break; e->port = 5000 + sl; e->acceptPolicy = (int)(arg % 6); if (arg % 7 < 4) e->acceptPolicy = 0;
     Server::Listener* l = C.srv->listen(Socket::loopbackAddress, (uint16)e->port, e->lcb); if (!l) { e->alive = false; e->removed = true; probe("listen_failed"); break; } e->handle = l; C.listenerSlot[sl] = e; break; }
   case L_REMOVE: removeEnt(C.listenerSlot[slot % 2]); break;
-  case S_ACCEPTPOLICY: if (C.listenerSlot[slot % 2]) C.listenerSlot[slot % 2]->acceptPolicy = (int)(arg % 4); break;
-  case E_ADDR: case E_HOST: { int sl = slot % 3; if (C.estabSlot[sl]) break; Ent* e = newEnt(K_ESTAB, sl); if (!e) break; uint16 port = (uint16)(6000 + arg % 3); e->createdAt = Time::ticks();
+  case S_ACCEPTPOLICY: if (C.listenerSlot[slot % 2]) C.listenerSlot[slot % 2]->acceptPolicy = (int)(arg % 6); break;
+  case E_ADDR: case E_HOST: { int sl = slot % 3; if (C.estabSlot[sl]) break; Ent* e = newEnt(K_ESTAB, sl); if (!e) break; uint16 port = (uint16)(6000 + arg % 3); e->createdAt = Time::ticks(); e->port = (int)(arg % 3) + 1 /* re-dial another port next time */; e->connectAction = (int)((arg / 12) % 5 < 4 ? (arg / 12) % 5 : 0);
     Server::Establisher* es;
     if (code == E_ADDR) es = C.srv->connect(Socket::loopbackAddress, port, e->ecb);
     else { e->byHost = true; es = C.srv->connect((arg / 3) % 4 == 0 ? String("bad.test") : String("ok.test"), port, e->ecb); }
